@@ -421,7 +421,7 @@ theorem uok_of_canon {m : Mat} (hc : m.Canon) (hsq : m.nRow = m.nCol) (hs : m.is
     no duplicate entry), with scipy's count of the components, `is_acyclic` answers `True` exactly when the graph has
     no cycle: no self-loop and no simple cycle with three nodes or more. The criterion `n_cc == n_nodes - nnz // 2`
     is the forest formula, proved by adding the edges one at a time to a union-find labelling
-    (`Lemmas/Forest.lean`: components + edges = nodes + closing edges; a closing edge exists iff a cycle does). -/
+    (`Lemmas/UndirectedForest.lean`: components + edges = nodes + closing edges; a closing edge exists iff a cycle does). -/
 theorem isAcyclic_undirected_iff (nCC : Bool → Nat) (m : Mat) (directed : Option Bool)
     (hc : m.Canon) (hsq : m.nRow = m.nCol) (hnn : m.NonNeg) (hrows : ∀ i, i < m.nRow → (m.adj i).Nodup)
     (hd : resolveDirected m directed = .ok false)
@@ -728,7 +728,7 @@ theorem getCycles_empty_iff_acyclic_directed (fuel : Nat) (nCC : Bool → Nat) (
 
 /-- ★ "none iff acyclic" (undirected graph, self-loops allowed, no duplicate entry): with scipy's contract for the
     components, `get_cycles` returns the empty list exactly when the graph has no cycle (no self-loop, no simple cycle
-    with three nodes or more). The early return rests on the forest criterion (`Lemmas/Forest.lean`,
+    with three nodes or more). The early return rests on the forest criterion (`Lemmas/UndirectedForest.lean`,
     `no_cycle_of_criterion`), the traversal on its completeness: the first node of a component reaches every cycle
     of the component, and every back edge other than the move to the parent is recorded (`Lemmas/CompleteUnd.lean`). -/
 theorem getCycles_empty_iff_acyclic_undirected (fuel : Nat) (nCC : Bool → Nat) (labels : Bool → List Nat) (m : Mat)
